@@ -56,15 +56,24 @@ def ts_helper_names(A):
 
 
 def place_field(body, pl, depth=0):
-    """(field name, type string) a place denotes, looking through `_l = &mut <place>` definitions"""
+    """(field name, type string) a place denotes, looking through `_l = &mut <place>` definitions and through
+    temporaries that are plain copies of a field (`_t = copy x.f`)"""
     if pl["proj"] and pl["proj"][-1]["k"] == "field":
         return pl["proj"][-1].get("name"), pl["ty"].get("s")
-    if depth < 3 and len(pl["proj"]) == 1 and pl["proj"][0]["k"] == "deref":
+    if depth < 4 and len(pl["proj"]) == 1 and pl["proj"][0]["k"] == "deref":
         for blk in body["blocks"]:
             for st in blk["stmts"]:
                 if st["k"] == "assign" and st["place"]["local"] == pl["local"] and not st["place"]["proj"] \
                         and st["rv"]["k"] == "ref":
                     return place_field(body, st["rv"]["place"], depth + 1)
+    if depth < 4 and not pl["proj"]:
+        defs = []
+        for blk in body["blocks"]:
+            for st in blk["stmts"]:
+                if st["k"] == "assign" and st["place"]["local"] == pl["local"] and not st["place"]["proj"]:
+                    defs.append(st["rv"])
+        if len(defs) == 1 and defs[0]["k"] == "use" and defs[0]["op"]["k"] in ("copy", "move"):
+            return place_field(body, defs[0]["op"]["place"], depth + 1)
     return None, None
 
 
@@ -106,6 +115,9 @@ def rule_u(facts, body, bb, r_lo, r_hi):
                             _is_checked_inc(b, src["local"], fname):
                         continue
                     if _is_default_call_result(b, src["local"]):
+                        continue
+                    # a copy of the same counter field of another instance of the type (e.g. `self.f = fresh.f`)
+                    if place_field(b, src) == (fname, fty):
                         continue
                 return None
     return "rule U: usize counter `%s` is only ever assigned constants or incremented by a value in [0,256] (A3)" % fname
